@@ -53,6 +53,7 @@ struct SyncApp {
     tx: Option<Sender<()>>,
     done: Receiver<Instant>,
     state: Arc<St>,
+    accepted: Arc<Mutex<HashMap<SocketAddr, Instant>>>,
 }
 
 fn start(pool: usize, bind: &str) -> Result<SyncApp, String> {
@@ -87,6 +88,18 @@ fn start(pool: usize, bind: &str) -> Result<SyncApp, String> {
             }
         })
         .with_shutdown(rx);
+    // the application's own report of accepted connections (emitted by the accept thread before it hands them to the pool)
+    let (mtx, mrx) = channel();
+    let app = app.with_monitor(humphrey::monitor::MonitorConfig::new(mtx).with_subscription_to(humphrey::monitor::event::EventType::ConnectionSuccess));
+    let accepted: Arc<Mutex<HashMap<SocketAddr, Instant>>> = Arc::new(Mutex::new(HashMap::new()));
+    let acc2 = accepted.clone();
+    std::thread::spawn(move || {
+        while let Ok(ev) = mrx.recv() {
+            if let Some(peer) = ev.peer {
+                acc2.lock().unwrap().entry(peer).or_insert_with(Instant::now);
+            }
+        }
+    });
     let state = app.get_state();
     std::thread::spawn(move || {
         let _ = app.run(addr);
@@ -96,7 +109,7 @@ fn start(pool: usize, bind: &str) -> Result<SyncApp, String> {
     for _ in 0..400 {
         if let Ok(s) = TcpStream::connect(probe) {
             drop(s);
-            return Ok(SyncApp { addr, tx: Some(tx), done: drx, state });
+            return Ok(SyncApp { addr, tx: Some(tx), done: drx, state, accepted });
         }
         std::thread::sleep(Duration::from_millis(3));
     }
@@ -118,6 +131,9 @@ impl RunningApp for SyncApp {
     }
     fn handler_started(&self, id: &str) -> Option<Instant> {
         self.state.started.lock().unwrap().get(id).copied()
+    }
+    fn accepted_at(&self, client: SocketAddr) -> Option<Instant> {
+        self.accepted.lock().unwrap().get(&client).copied()
     }
     fn runtime(&self) -> &'static str {
         "threaded"
@@ -229,5 +245,5 @@ pub fn main(args: &Args) {
         total.nontrivial(1);
         total.nontrivial(2);
     }
-    total.write(out, "traffic states of 0..16 connections each in {just accepted, idle keep-alive, half-sent request, handler running 5 ms / 500 ms / 1.2-3 s, 1-4 MiB response to a reader that is not reading, WebSocket open} on pools of 1..8 threads (incl. fully occupied pools with queued connections), bound to 127.0.0.1, 0.0.0.0 or [::]; signal sent before any connection, after the traffic has settled, or from another thread during the burst of connects; seeded delays at the two accept-loop failpoints; plus applications whose connection condition keeps the accept thread busy for up to 1.2 s per connection, signalled while a silent client is being examined. distinct = distinct scenarios; every scenario is non-trivial (return, re-bind and in-flight responses are judged)", None, &["bounded progress: run must return within 10 s of the signal (typical: milliseconds)", "connections racing with the signal may get a complete response or nothing, never a truncated one; a request sent at least 100 ms before a signal that follows settled traffic is not racing: it must be answered even if it was still queued behind occupied workers", "the process is kept alive so that handlers started before the signal can finish (as the property's observation point prescribes)"]);
+    total.write(out, "traffic states of 0..16 connections each in {just accepted, idle keep-alive, half-sent request, handler running 5 ms / 500 ms / 1.2-3 s, 1-4 MiB response to a reader that is not reading, WebSocket open} on pools of 1..8 threads (incl. fully occupied pools with queued connections), bound to 127.0.0.1, 0.0.0.0 or [::]; signal sent before any connection, after the traffic has settled, or from another thread during the burst of connects; seeded delays at the two accept-loop failpoints; plus applications whose connection condition keeps the accept thread busy for up to 1.2 s per connection, signalled while a silent client is being examined. distinct = distinct scenarios; every scenario is non-trivial (return, re-bind and in-flight responses are judged)", None, &["bounded progress: run must return within 10 s of the signal (typical: milliseconds)", "connections racing with the signal may get a complete response or nothing, never a truncated one; a request on a connection that the application itself had reported as accepted (monitor event ConnectionSuccess) before the signal is not racing: it must be answered even if it was still queued behind occupied workers", "the process is kept alive so that handlers started before the signal can finish (as the property's observation point prescribes)"]);
 }
